@@ -13,6 +13,7 @@ Inductive yev :=
 | YLinkUp                       (* the link is selected *)
 | YLinkDown                     (* the link is lost *)
 | YInS1F13 (accept : bool)     (* establish communications request received; accept: what the application decides (COMMACK 0) or denies (COMMACK 1) *)
+| YInS1F13Unanswerable          (* the same request, but the answer cannot be sent (the link refuses the write): the exchange is not completed *)
 | YInS1F14 (commack : Z) (readable : bool)
 | YInOther (registered : bool) (w : bool)     (* any other message; registered: a callback exists for it *)
 | YT3                           (* reply timeout of our S1F13 *)
@@ -59,6 +60,7 @@ Definition e30c_step (s : e30c) (e : yev) : list (e30c * list yout) :=
     | YComm => [(s, [YSendS1F14 a]); (s, [YSendS1F14 a; YHandled])]
     | _ => [(s, [])]
     end
+  | YInS1F13Unanswerable => [(s, [])]          (* no S1F14 went out: nothing is established, nothing else changes *)
   | YInS1F14 c readable =>
     match y_state s with
     | YWaitCRA => if readable && (c =? 0) then [(st s YComm, [])] else [(st s YWaitDelay, [])]
